@@ -80,10 +80,11 @@ PROPS = {
                      "AtomicUsize::fetch_add is modelled as a wrapping add on a plain usize"],
     ),
     "C08": dict(
-        units=["security", "store"],
+        units=["security", "store", "dispatch"],
         kani=[K_FILTER],
         undecided=["handlers that do not go through apply_if_safe_access: the Resolve, Arbiter and rp (ReplicateRequest) arms of the dispatcher "
-                   "(process_request.rs:524, 618, 619) - a non-admin `resolve ... $$token ...` is outside every contract here",
+                   "- a non-admin `resolve ... $$token ...` is outside every contract here (the six keyed data arms get / get-safe / watch / set / increment / "
+                   "remove ARE verified to pass their key through the guard, unit dispatch)",
                    "two-run noninterference is reduced to: the guarded closure is not callable and the reply is an error",
                    "Database::list_keys's filter closure (iterator pipeline) is not verified; only filter_system_keys itself (Kani, bounded)"],
         assumptions=["str::starts_with is a prefix test (trusted shim)",
@@ -91,10 +92,11 @@ PROPS = {
                      "the session may access the key"],
     ),
     "C09": dict(
-        units=["security", "store"],
+        units=["security", "store", "dispatch"],
         kani=[K_AUTH, K_KIND],
-        undecided=["that every administrative arm of the dispatcher is wrapped in apply_if_auth and every data arm in apply_if_safe_access / apply_to_database",
-                   "use-db leaving the previous selection untouched on failure; mid-session permission changes",
+        undecided=["dispatcher arms that are not a single guard call: Auth, UseDb (failed use-db leaving the selection untouched is checked by the bounded sweep only), "
+                   "Resolve, ReplicateRequest (rp); the closure bodies handed to the guards are abstracted (R10), so WHAT an arm does once allowed is not verified here",
+                   "mid-session permission changes",
                    "the decision of a stored permission list (Permission::permissions_from_str + pattern matching: iterator pipelines, out of reach for "
                    "Verus; Kani timed out at 7-15 min on 3-byte strings) is an uninterpreted function spec_list_grants"],
         assumptions=["format!(\"$$permission_${}\", user) and format!(\"$$user_{}\", user) concatenate (trusted shims)"],
